@@ -8,8 +8,6 @@ structure St where
   s : RegSpec.State := []
 
 def sweepMax : Nat := 0x1100
-/-- listed by `t size`/`t traits` only (known findings: the code has no traits for them) -/
-def sweepSkip : List Nat := [TypeId.TypeBufferPtr, TypeId.TypeVector]
 
 def hexName (n : Option Name) : String :=
   match n with
@@ -54,7 +52,7 @@ def listing (get : Nat → Option String) : String :=
     match fuel with
     | 0 => acc
     | fuel + 1 =>
-      let v := if id ≤ sweepMax ∧ id ∉ sweepSkip then get id else none
+      let v := if id ≤ sweepMax then get id else none
       if id = 0 then go 1 fuel 0 v acc
       else if v = cur then go (id + 1) fuel start cur acc
       else
@@ -198,6 +196,38 @@ def step (st : St) (w : List String) : St × String :=
             (if size = 1 then 98 else if size = 2 then 110 else if size = 4 then 105 else if size = 8 then 120 else 0)
           else (if size = 1 then 121 else if size = 2 then 113 else if size = 4 then 117 else if size = 8 then 116 else 0)
         (st, s!"R code={code} | C - | I - | S code={sp} ; *")
+      | none => (st, "bad-op")
+    else if kind = "mcode" then
+      match nm.toInt? with
+      | some t =>
+        let m := if t < 0 then none else msgCode t.toNat
+        let sp := if t < 0 then none else specMsgCode t.toNat
+        let f (o : Option Nat) := match o with
+          | some c => s!"code={c}"
+          | none => "code=-1"
+        (st, s!"R {f m} | C - | I - | S {f sp} ; *")
+      | none => (st, "bad-op")
+    else if kind = "mtype" then
+      match nm.toNat? with
+      | some fmt =>
+        if fmt > 255 then (st, "bad-op") else
+        let (m, i) := match msgTypeid fmt with
+          | .ok t => (s!"type={t}", "-")
+          | .err e => ("refused", s!"err={e.name}")
+          | _ => ("refused", "-")
+        let sp := match specMsgType fmt with
+          | some t => s!"type={t}"
+          | none => "refused"
+        (st, s!"R {m} | C - | I {i} | S {sp} ; *")
+      | none => (st, "bad-op")
+    else if kind = "msize" then
+      match nm.toNat? with
+      | some fmt =>
+        if fmt > 255 then (st, "bad-op") else
+        -- S: the size the format code encodes (message.h): low five bits + 1, in bytes or in atoms of 64 bytes
+        let f := fmt % 128
+        let sp := if (f / 32) % 4 ≠ 0 then f % 32 + 1 else (f % 32 + 1) * 64
+        (st, s!"R size={msgSize fmt} | C - | I - | S size={sp} ; *")
       | none => (st, "bad-op")
     else if kind = "size" then
       match nm.toNat? with
